@@ -1,10 +1,14 @@
-"""C05 - collection deltas are coherent with collection values at every tick (TSS / TSD / tick TSW / duration TSW)."""
+"""C05 - collection deltas are coherent with collection values at every tick (TSS / TSD / tick TSW / duration TSW).
+
+TSS / TSD histories run over four KEY types: i64 (tagged-pointer slot table) and i32 / date / f32 (alignment < 8: the
+BITMAP slot table with its two planes constructed / live); the case header names the type (`tss:date`), keys are
+written and read back as integers through a fixed bijection, the Lean model is key-type independent."""
 import itertools
 import os
 from vlib import Case, Stream, BUILD, VERIF, model_cmd
 
 ID = "C05"
-LEAN_MODULES = ["HgVerif.Props.C05", "HgVerif.Props.C05Window"]
+LEAN_MODULES = ["HgVerif.Props.C05", "HgVerif.Props.C05Window", "HgVerif.Props.C05Grow"]
 _P = "HgVerif.Slots."
 _W = "HgVerif.TimeWindow."
 _TW_THEOREMS = [_W + n for n in [
@@ -32,23 +36,40 @@ THEOREMS = [_P + n for n in [
     "window_last_n", "window_evicted", "GWin.run_w",
     # fixed TSL / TSB (ceiling)
     "fixed_cycle_coherent", "fixed_cycle_aux", "fixed_wf_reachable",
-]] + _TW_THEOREMS
+]] + _TW_THEOREMS + [_P + n for n in [
+    # growth of the slot table at any point of a cycle; the two planes of the bitmap representation (narrow key types)
+    "resizedBitmapCopy_test", "resizedBitmapCopy_wf", "planes_growth_preserves_states",
+    "planes_growth_preserves_live_and_pending", "planes_growth_refines", "planes_growth_at_any_point",
+    "Planes.markPending_abs", "Planes.markLive_abs", "Planes.construct_abs", "Planes.markFree_abs", "Planes.Abs_ofSlots",
+    "planes_growth_s83_states", "planes_growth_s83_refines", "planes_growth_s83_resurrects",
+    "TSS.reserve_observables", "TSS.reserve_inv", "TSD.reserve_observables", "TSD.reserve_inv", "TSD.reserve_vinv",
+    "tssg_inv_reachable", "tsdg_inv_reachable", "tss_size_contains", "tsd_size_contains",
+    "tssg_tick_coherent", "tsd_value_delta_state", "tsdg_tick_coherent",
+    "tss_s83_incoherent", "s83_history_coherent_as_coded", "GSetG.run_x", "GDictG.run_x",
+]]
 CXX_TARGETS = ["hgv_slots", "hgv_twindow"]
-RULE = ("mutation histories over real standalone TSOutput objects of TSS<Int>, TSD<Int,TS<Int>>, tick TSW<Int>, duration "
+RULE = ("mutation histories over real standalone TSOutput objects of TSS<K>, TSD<K,TS<Int>> (K in int64 | int32 | date | float: "
+        "tagged-pointer and bitmap slot tables), tick TSW<Int>, duration "
         "TSW<Int> and fixed TSL<TS<Int>,n> with an explicit evaluation time per op; a case is non-trivial when one cycle "
         "mutates the same key at least twice (cancel / remove+re-insert), or a slot is reused after a physical erase, or "
-        "the slot capacity grows past 8/16/32, or a window evicts, or a duration window lets a value expire, holds more "
+        "the slot capacity grows past 8/16/32 (by an insert at constructed keys = capacity or by reserve, in particular "
+        "while removals of the same cycle are pending erase), or a window evicts, or a duration window lets a value expire, holds more "
         "than 4 values (its buffer was regrown) or is regrown while wrapped, or a list cycle leaves some children "
         "unmodified; distinct by sha1 of the op list")
 TRUSTED = ["ankerl::unordered_dense key index modelled as first constructed slot holding the key",
            "sul::dynamic_bitset delta bits modelled per slot (sizes are kept equal to the capacity by ensure_delta_capacity)",
-           "type-erased Value copy/equality/hash of Int keys and values",
+           "type-erased Value copy/equality/hash of keys and values (int64, int32, date, float keys are written and read back "
+           "through a fixed bijection with the model's integers)",
+           "SlotBitmap words modelled as their physical bits, 64 per word (set / reset / test by index instead of shift and mask)",
+           "the choice of slot-table representation by payload alignment (StableSlotStore) is not modelled: the planes model "
+           "is proved to implement the one-state-per-slot model, and both representations are driven",
            "duration window: the two parallel heap arrays (values, times) of TSWindowStorageCore modelled as one list of "
            "(value, time) slots; the signed cut-off `time < modified_time - range` modelled as `time + range < modified_time`"]
 ASSUMPTIONS = ["evaluation times of successive mutations are non-decreasing (the engine's clock); decreasing times are "
                "exercised for correspondence only",
                "TSD children are TS<Int> written through TSDDataMutationView::set; child invalidation and REF children are out of scope",
-               "element types other than Int are not exercised (the slot operations are type-erased)",
+               "key types exercised: int64, int32, date, float (narrow keys |n| < 2^24); value type Int only; str / bool / nested "
+               "keys are not exercised (the slot operations are type-erased)",
                "duration windows: one mutation view per op (push / clear / clear+push); copy_value_from / move_value_from of a "
                "whole list and copy / move of the window storage are not exercised"]
 
@@ -74,8 +95,23 @@ def _pick_key(rng, pool, recent):
     return rng.choice(pool)
 
 
-def gen_tss(rng, idx, maxops, profile=None):
-    lines = ["case %d" % idx, "tss"]
+KEY_TYPES = ["i64", "i32", "date", "f32"]
+
+
+def _pick_kt(rng):
+    """half of the random histories stay on int64 keys (tagged-pointer table), the rest use the bitmap table"""
+    return rng.choice(["i64", "i64", "i64", "i32", "date", "f32"])
+
+
+def _header(kind, kt, rng=None):
+    if kt == "i64" and (rng is None or rng.random() < 0.8):
+        return kind                 # the plain header is the int64 one
+    return "%s:%s" % (kind, kt)
+
+
+def gen_tss(rng, idx, maxops, profile=None, kt=None):
+    kt = kt or _pick_kt(rng)
+    lines = ["case %d" % idx, _header("tss", kt, rng)]
     clk = _Clock(rng)
     profile = profile or rng.choice(["small", "small", "churn", "growth", "growth", "odd"])
     pool = list(range(rng.choice([3, 4, 6]))) if profile in ("small", "odd") else list(range(rng.choice([10, 20, 40])))
@@ -108,10 +144,15 @@ def gen_tss(rng, idx, maxops, profile=None):
             lines.append("rem %d %d" % (clk.t, k)); recent.append(k)
         elif r < 0.86:
             lines.append("clear %d" % clk.t)
-        elif r < 0.89:
+        elif r < 0.875:
             lines.append("touch %d" % clk.t)
+        elif r < 0.885:
+            lines.append("has %d %d" % (clk.t, _pick_key(rng, pool, recent)))
+        elif r < 0.89:
+            # explicit growth of the slot table (possibly while removals of this cycle are pending erase)
+            lines.append("reserve %d %d" % (clk.t, rng.choice([0, 3, 8, 9, 16, 17, 24, 33, 64, 65, 70])))
         elif r < 0.90 and profile == "odd":
-            lines.append("add 0 %d" % rng.choice(pool))          # MIN_DT is refused
+            lines.append(rng.choice(["add 0 %d" % rng.choice(pool), "reserve 0 20"]))          # MIN_DT is refused
         elif r < 0.92 and profile == "odd" and clk.t > 2:
             # an older time joins the current delta window (correspondence only)
             lines.append("%s %d %d" % (rng.choice(["add", "rem"]), clk.t - rng.randint(1, 2), rng.choice(pool)))
@@ -127,14 +168,15 @@ def gen_tss(rng, idx, maxops, profile=None):
                 lines.append("dump %d" % clk.t)      # before anything happened in the new cycle: no delta
     lines.append("dump %d" % clk.t)
     lines.append("slots")
-    return Case(lines, {"profile": profile})
+    return Case(lines, {"profile": profile, "key": kt})
 
 
-def gen_tsd(rng, idx, maxops, mode="plain"):
+def gen_tsd(rng, idx, maxops, mode="plain", kt=None):
     """mode 'plain': set / erase / clear / touch histories; 'rewrite' adds dense write + erase + re-insert of one key
     within a cycle (regression for the repaired finding F-C05-1); 'late' creates keys without a value (`at`), the
     pattern of the known finding F-C05-2 about the key_set() projection."""
-    lines = ["case %d" % idx, "tsd"]
+    kt = kt or _pick_kt(rng)
+    lines = ["case %d" % idx, _header("tsd", kt, rng)]
     clk = _Clock(rng)
     profile = rng.choice(["small", "small", "churn", "growth"])
     pool = list(range(rng.choice([3, 4, 6]))) if profile == "small" else list(range(rng.choice([10, 20, 40])))
@@ -195,8 +237,12 @@ def gen_tsd(rng, idx, maxops, mode="plain"):
         elif r < 0.89:
             lines.append("clear %d" % clk.t)
             erased_after_write.update(written)
-        elif r < 0.92:
+        elif r < 0.91:
             lines.append("touch %d" % clk.t)
+        elif r < 0.92:
+            lines.append("has %d %d" % (clk.t, _pick_key(rng, pool, recent)))
+        elif r < 0.93:
+            lines.append("reserve %d %d" % (clk.t, rng.choice([0, 3, 8, 9, 16, 17, 24, 33, 64, 65, 70])))
         else:
             lines.append("slots")
         i += 1
@@ -209,7 +255,155 @@ def gen_tsd(rng, idx, maxops, mode="plain"):
                 lines.append("dump %d" % clk.t)
     lines.append("dump %d" % clk.t)
     lines.append("slots")
-    return Case(lines, {"mode": mode, "profile": profile})
+    return Case(lines, {"mode": mode, "profile": profile, "key": kt})
+
+
+BOUNDARY_SCENARIOS = ["remove-insert", "remove-insert", "remove-several-insert-several", "reserve-while-pending",
+                      "clear-refill", "many-growths", "resurrect-then-grow", "growth-only", "separate-cycles",
+                      "reserved-capacity"]
+
+
+def gen_boundary(rng, idx, kind, kt, scenario=None, cap=None):
+    """histories that bring the slot table to EXACTLY its capacity (constructed keys = 8 / 16 / 32, or a capacity chosen
+    by `reserve`, including the 64-bit word boundaries of the bitmap planes) and then remove and insert inside ONE cycle,
+    so that the table has to grow while removals are still pending erase; growth without removals and removal / growth
+    in separate cycles are the controls.  `kind` is tss or tsd, `kt` the key type."""
+    scenario = scenario or rng.choice(BOUNDARY_SCENARIOS)
+    lines = ["case %d" % idx, _header(kind, kt, rng)]
+    t = [rng.randint(1, 3)]
+    nxt = [1000]                                  # fresh keys
+    val = [0]
+
+    def tick():
+        lines.append("dump %d" % t[0])
+        t[0] += rng.choice([1, 1, 2])
+
+    def ins(k):
+        if kind == "tss":
+            lines.append("add %d %d" % (t[0], k))
+        else:
+            val[0] += 1
+            if rng.random() < 0.08:
+                lines.append("at %d %d" % (t[0], k))
+            lines.append("set %d %d %d" % (t[0], k, val[0]))
+
+    def rem(k):
+        lines.append("%s %d %d" % ("rem" if kind == "tss" else "erase", t[0], k))
+
+    def fresh():
+        nxt[0] += 1
+        return nxt[0]
+
+    def probe(keys):
+        for k in keys:
+            lines.append("has %d %d" % (t[0], k))
+
+    # --- fill to the capacity boundary
+    if scenario == "reserved-capacity":
+        cap = cap or rng.choice([1, 3, 5, 12, 20, 63, 64, 65])
+        lines.append("reserve %d %d" % (t[0], cap))
+    else:
+        cap = cap or rng.choice([8, 8, 8, 16, 16, 32])
+    base = rng.choice([0, 1, -5, 100])
+    keys = [base + j for j in range(cap)]
+    cut = rng.randint(1, cap) if rng.random() < 0.4 else None          # fill in one or two cycles
+    for j, k in enumerate(keys):
+        if cut is not None and j == cut:
+            tick()
+        ins(k)
+    if rng.random() < 0.6:
+        lines.append("slots")
+    tick()
+    live = list(keys)
+    # --- the cycle at the boundary
+    removed, added = [], []
+    if scenario in ("remove-insert", "reserved-capacity"):
+        removed = [rng.choice(live)]
+        rem(removed[0]); live.remove(removed[0])
+        if rng.random() < 0.3:
+            lines.append("dump %d" % t[0])
+        k = fresh(); ins(k); added.append(k)
+    elif scenario == "remove-several-insert-several":
+        for k in rng.sample(live, min(len(live), rng.randint(2, 4))):
+            rem(k); live.remove(k); removed.append(k)
+        for _ in range(rng.randint(2, 5)):
+            k = fresh(); ins(k); added.append(k)
+            if rng.random() < 0.3 and removed:          # interleave: re-insert a removed key (resurrects its slot)
+                k2 = removed.pop(rng.randrange(len(removed))); ins(k2); live.append(k2)
+    elif scenario == "reserve-while-pending":
+        for k in rng.sample(live, min(len(live), rng.randint(1, 3))):
+            rem(k); live.remove(k); removed.append(k)
+        lines.append("reserve %d %d" % (t[0], rng.choice([cap + 1, 2 * cap, 2 * cap + 1, 64, 65, 130])))
+        if rng.random() < 0.5:
+            k = fresh(); ins(k); added.append(k)
+    elif scenario == "clear-refill":
+        lines.append("clear %d" % t[0]); removed = list(live); live = []
+        for _ in range(rng.choice([1, 2, cap, cap + 1])):
+            k = fresh(); ins(k); added.append(k)
+    elif scenario == "many-growths":
+        for k in rng.sample(live, 2 if len(live) >= 2 else 1):
+            rem(k); live.remove(k); removed.append(k)
+        for _ in range(rng.choice([cap + 1, 2 * cap + 1, 3 * cap + 2])):
+            k = fresh(); ins(k); added.append(k)
+    elif scenario == "resurrect-then-grow":
+        k0 = rng.choice(live)
+        rem(k0); ins(k0)                                  # cancels: no pending slot when the table grows
+        k = fresh(); ins(k); added.append(k)
+    elif scenario == "growth-only":
+        for _ in range(rng.randint(1, cap + 2)):
+            k = fresh(); ins(k); added.append(k)
+    elif scenario == "separate-cycles":
+        removed = [rng.choice(live)]
+        rem(removed[0]); live.remove(removed[0])
+        probe(removed)
+        tick()
+        removed_earlier, removed = removed, []
+        for _ in range(rng.randint(1, 3)):                # the first one reuses the erased slot, the next ones grow
+            k = fresh(); ins(k); added.append(k)
+        if rng.random() < 0.5:
+            probe(removed_earlier)
+    live += added
+    probe(removed + added[:2])
+    lines.append("slots")
+    tick()
+    # --- afterwards: a ghost member would stay; re-adding a removed key must be reported as added
+    for _ in range(rng.randint(1, 4)):
+        r = rng.random()
+        if removed and r < 0.4:
+            k = removed.pop(rng.randrange(len(removed))); ins(k); live.append(k)
+        elif live and r < 0.7:
+            k = live.pop(rng.randrange(len(live))); rem(k); removed.append(k)
+        else:
+            k = fresh(); ins(k); live.append(k)
+        if rng.random() < 0.6:
+            probe(removed[:2])
+            tick()
+    lines.append("dump %d" % t[0])
+    lines.append("slots")
+    return Case(lines, {"profile": "boundary", "scenario": scenario, "key": kt, "cap": cap})
+
+
+def boundary_matrix(kind, start):
+    """the core pattern for every key type x capacity 8 / 16 / 32 x position of the removed key: fill, then in one cycle
+    remove one key and insert a new one"""
+    out = []
+    j = start
+    for kt in KEY_TYPES:
+        for cap in (8, 16, 32):
+            for pos in (0, cap // 2, cap - 1):
+                lines = ["case %d" % j, _header(kind, kt)]
+                for k in range(cap):
+                    lines.append("add 1 %d" % k if kind == "tss" else "set 1 %d %d" % (k, 10 + k))
+                lines += ["dump 1", "slots"]
+                lines.append(("rem 2 %d" if kind == "tss" else "erase 2 %d") % pos)
+                lines.append("add 2 500" if kind == "tss" else "set 2 500 7")
+                lines += ["dump 2", "slots", "has 2 %d" % pos, "has 2 500"]
+                lines.append(("add 3 %d" if kind == "tss" else "set 3 %d 9") % pos)
+                lines += ["dump 3", ("rem 4 0" if kind == "tss" else "erase 4 0") if pos != 0 else ("rem 4 1" if kind == "tss" else "erase 4 1"),
+                          "dump 4", "slots"]
+                out.append(Case(lines, {"profile": "boundary", "scenario": "matrix", "key": kt, "cap": cap}))
+                j += 1
+    return out
 
 
 def gen_tsw(rng, idx, maxops):
@@ -491,7 +685,15 @@ def streams(rng, tier, seed):
         twx = exhaustive_tw([1, 3], 9, 6, 0)                       # 256 cases; wrapped growth needs >= 7 pushes
     else:
         twx = exhaustive_tw([1, 2, 3, 4], 8, 6, 0) + exhaustive_tw([1, 3, 7], 10, 6, 20000)
+    # capacity boundaries of the slot table, both representations (tagged-pointer: i64; bitmap planes: i32 / date / f32)
+    nb = 24 if quick else 900
+    tssb, tsdb = boundary_matrix("tss", 0), boundary_matrix("tsd", 0)
+    for kt in KEY_TYPES:
+        tssb += [gen_boundary(rng, len(tssb) + i, "tss", kt) for i in range(nb)]
+        tsdb += [gen_boundary(rng, len(tsdb) + i, "tsd", kt) for i in range(nb)]
     return [
+        Stream("tss-boundary", impl, model, corpus.get("tssboundary", []) + tssb),
+        Stream("tsd-boundary", impl, model, corpus.get("tsdboundary", []) + tsdb),
         Stream("twindow", impl_tw, model_tw, corpus.get("twindow", []) + tw),
         Stream("twindow-exhaustive", impl_tw, model_tw, twx),
         Stream("tss", impl, model, corpus.get("tss", []) + tss),
@@ -579,8 +781,70 @@ def _coherence(res, t, prev, cur, added, removed, what):
                        % (what, t, sorted(added & prev)))
 
 
+class _SlotShadow:
+    """what the key slot store does with its capacity (free list empty -> grow to max(size+1, max(8, 2*capacity));
+    a slot removed in this cycle stays constructed until the next cycle's first mutation), for the input-distribution
+    histogram ONLY: the verdicts of the monitor never look at it"""
+
+    def __init__(self, res, kt):
+        self.res, self.kt = res, kt
+        self.cap = 0
+        self.pending = set()        # keys removed in this cycle whose slot is still constructed
+
+    def new_cycle(self):
+        self.pending = set()
+
+    def _feat(self, what):
+        rep = "tagged-pointer" if self.kt == "i64" else "BITMAP"
+        self.res.feats.add("%s[%s]" % (what, rep))
+        self.res.feats.add("%s[key=%s]" % (what, self.kt))
+
+    def insert(self, k, live_before):
+        """k was absent; live_before = number of live keys before the insert"""
+        if k in self.pending:
+            self.pending.discard(k)             # its slot is resurrected
+            return
+        if live_before + len(self.pending) >= self.cap:
+            new = max(live_before + 1, max(8, 2 * self.cap))
+            if self.cap:
+                self.res.nontrivial = True
+                if self.pending:
+                    self._feat("GROW-%d->%d-WITH-PENDING-ERASE" % (self.cap, new) if self.cap in (8, 16, 32) else "GROW-WITH-PENDING-ERASE(other-capacity)")
+                    self._feat("GROW-WITH-PENDING-ERASE")
+                    if len(self.pending) > 1:
+                        self._feat("GROW-WITH-SEVERAL-PENDING-ERASE")
+                else:
+                    self._feat("grow-%d->%d-no-pending" % (self.cap, new) if self.cap in (8, 16, 32) else "grow-no-pending(other-capacity)")
+            self.cap = new
+
+    def remove(self, k):
+        self.pending.add(k)
+
+    def reserve(self, cap):
+        if cap > self.cap:
+            if self.pending:
+                self._feat("RESERVE-WITH-PENDING-ERASE"); self.res.nontrivial = True
+            else:
+                self._feat("reserve-no-pending")
+            if self.cap // 64 != cap // 64 or (self.cap <= 64 < cap):
+                self._feat("growth-crosses-a-64-bit-word-of-the-planes")
+            self.cap = cap
+
+    def check(self, o):
+        if o.startswith("cap=") and int(o.split()[0][4:]) != self.cap:
+            self.res.feats.add("shadow-capacity-differs(histogram-only)")
+
+
+def _key_type(case):
+    w = case.lines[1].split()[0] if len(case.lines) > 1 else ""
+    return w.split(":")[1] if ":" in w else "i64"
+
+
 def _mon_tss(case, out):
     res = _Res()
+    kt = _key_type(case)
+    res.feats.add("key=" + kt)
+    shadow = _SlotShadow(res, kt)
     S, prev = set(), set()
     cur_t = 0
     touched = {}            # key -> list of ops in this cycle
@@ -610,13 +874,31 @@ def _mon_tss(case, out):
     for ln, o in zip(case.lines, out + ["<none>"] * len(case.lines)):
         w = ln.split()
         op = w[0]
-        if op in ("case", "tss"):
+        if op == "case" or op.split(":")[0] == "tss":
             continue
         if op == "slots":
             if o.startswith("cap="):
                 cap = int(o.split()[0][4:])
+                shadow.check(o)
                 if cap >= 16:
                     res.feats.add("capacity>=%d" % (32 if cap >= 32 else 16)); res.nontrivial = True
+            continue
+        if op == "has":
+            k = int(w[2])
+            res.feats.add("contains-probe-" + ("present" if k in S else "removed-this-cycle" if k in prev else "absent"))
+            if o != ("1" if k in S else "0"):
+                res.bad.append("tss-contains: contains(%d) answered %s at t=%s but the membership history says %d (value %s)"
+                               % (k, o, w[1], k in S, sorted(S)))
+            continue
+        if op == "reserve":
+            if int(w[1]) == 0:
+                res.feats.add("min-dt-refused")
+                if o != "err:invalid-arg":
+                    res.bad.append("mutation at MIN_DT returned %r" % o)
+            else:
+                if o != "ok":
+                    res.bad.append("%s returned %r" % (ln, o))
+                shadow.reserve(int(w[2]))
             continue
         if op in ("add", "rem", "clear", "touch"):
             t = int(w[1])
@@ -631,6 +913,7 @@ def _mon_tss(case, out):
             if t > cur_t:
                 close_cycle()
                 prev = set(S); cur_t = t
+                shadow.new_cycle()
                 res.feats.add("cycle-boundary")
                 touched = {}
                 removed_in_earlier_cycle = removed_in_earlier_cycle or removed_this_cycle
@@ -640,6 +923,8 @@ def _mon_tss(case, out):
                 k = int(w[2]); ch = k not in S
                 if ch and removed_in_earlier_cycle:
                     res.feats.add("insert-after-physical-erase(slot-reuse)"); res.nontrivial = True
+                if ch:
+                    shadow.insert(k, len(S))
                 S.add(k)
                 if o != ("1" if ch else "0"):
                     res.bad.append("add %d at t=%d returned %s, membership says %d" % (k, t, o, ch))
@@ -649,6 +934,7 @@ def _mon_tss(case, out):
                 S.discard(k)
                 if ch:
                     removed_this_cycle = True
+                    shadow.remove(k)
                 if o != ("1" if ch else "0"):
                     res.bad.append("remove %d at t=%d returned %s, membership says %d" % (k, t, o, ch))
                 touched.setdefault(k, []).append("r" if ch else "r0")
@@ -656,6 +942,7 @@ def _mon_tss(case, out):
                 res.feats.add("clear" if S else "clear-empty")
                 for k in S:
                     touched.setdefault(k, []).append("r")
+                    shadow.remove(k)
                 if S:
                     removed_this_cycle = True
                 S = set()
@@ -674,8 +961,10 @@ def _mon_tss(case, out):
             t = int(w[1])
             try:
                 f = _fields(o)
-                v, a, r = set(_ints(f["v"])), set(_ints(f["a"])), set(_ints(f["r"]))
+                vl = _ints(f["v"])
+                v, a, r = set(vl), set(_ints(f["a"])), set(_ints(f["r"]))
                 vv = set(_ints(f["vv"])); d = _delta_tss(f["d"])
+                c = set(_ints(f["c"]))
                 lmt, mod, valid, n = int(f["lmt"]), f["mod"] == "1", f["valid"] == "1", int(f["n"])
             except Exception as e:      # noqa
                 if o.startswith("err:"):
@@ -685,8 +974,15 @@ def _mon_tss(case, out):
                 return res
             if t < cur_t:
                 continue
+            late = []       # reported after the coherence relations of the tick
+            if n != len(vl) or len(vl) != len(v):
+                late.append("tss-size: size() disagrees with the elements that can be iterated: t=%d size()=%d, iterated %s"
+                            % (t, n, sorted(vl)))
+            if c != v:
+                late.append("tss-contains: contains() disagrees with the iterated value: t=%d value %s, of the keys named by value / "
+                            "added / removed those passing contains() are %s" % (t, sorted(v), sorted(c)))
             if v != S or vv != S or n != len(S):
-                res.bad.append("tss t=%d: value %s (value() %s, size %d) but membership history says %s" % (t, sorted(v), sorted(vv), n, sorted(S)))
+                late.append("tss t=%d: value %s (value() %s, size %d) but membership history says %s" % (t, sorted(v), sorted(vv), n, sorted(S)))
             if valid != (cur_t != 0):
                 res.bad.append("tss t=%d: valid=%d" % (t, valid))
             if t == cur_t and cur_t != 0:
@@ -707,6 +1003,7 @@ def _mon_tss(case, out):
                 if mod or a or r or d is not None:
                     res.bad.append("tss t=%d: nothing happened at this time but modified=%d added=%s removed=%s delta=%s"
                                    % (t, mod, sorted(a), sorted(r), f["d"]))
+            res.bad.extend(late)
             continue
         if o != "bad-op":
             res.bad.append("unknown op %r answered %r" % (ln, o))
@@ -716,6 +1013,9 @@ def _mon_tss(case, out):
 
 def _mon_tsd(case, out):
     res = _Res()
+    kt = _key_type(case)
+    res.feats.add("key=" + kt)
+    shadow = _SlotShadow(res, kt)
     D = {}                  # key -> value | None (created by `at`, no value yet)
     prev_pub, prev_live = {}, set()
     cur_t = 0
@@ -728,13 +1028,31 @@ def _mon_tsd(case, out):
     for ln, o in zip(case.lines, out + ["<none>"] * len(case.lines)):
         w = ln.split()
         op = w[0]
-        if op in ("case", "tsd"):
+        if op == "case" or op.split(":")[0] == "tsd":
             continue
         if op == "slots":
             if o.startswith("cap="):
                 cap = int(o.split()[0][4:])
+                shadow.check(o)
                 if cap >= 16:
                     res.feats.add("capacity>=%d" % (32 if cap >= 32 else 16)); res.nontrivial = True
+            continue
+        if op == "has":
+            k = int(w[2])
+            res.feats.add("contains-probe-" + ("present" if k in D else "removed-this-cycle" if k in prev_live else "absent"))
+            if o != ("1" if k in D else "0"):
+                res.bad.append("tsd-contains: contains(%d) answered %s at t=%s but the membership history says %d (keys %s)"
+                               % (k, o, w[1], k in D, sorted(D)))
+            continue
+        if op == "reserve":
+            if int(w[1]) == 0:
+                res.feats.add("min-dt-refused")
+                if o != "err:invalid-arg":
+                    res.bad.append("mutation at MIN_DT returned %r" % o)
+            else:
+                if o != "ok":
+                    res.bad.append("%s returned %r" % (ln, o))
+                shadow.reserve(int(w[2]))
             continue
         if op in ("set", "at", "erase", "clear", "touch"):
             t = int(w[1])
@@ -753,6 +1071,7 @@ def _mon_tsd(case, out):
                 last_removed_value = {}
                 touched = {}
                 grave = {}
+                shadow.new_cycle()
                 res.feats.add("cycle-boundary")
                 removed_in_earlier_cycle = removed_in_earlier_cycle or removed_this_cycle
                 removed_this_cycle = False
@@ -762,6 +1081,8 @@ def _mon_tsd(case, out):
                 k = int(w[2])
                 if k not in D and removed_in_earlier_cycle:
                     res.feats.add("insert-after-physical-erase(slot-reuse)"); res.nontrivial = True
+                if k not in D:
+                    shadow.insert(k, len(D))
                 if op == "set":
                     h = touched.get(k, [])
                     if "w" in h and "e" in h[h.index("w"):]:
@@ -787,6 +1108,7 @@ def _mon_tsd(case, out):
                         last_removed_value[k] = D[k]
                     grave[k] = D[k]
                     del D[k]; removed_this_cycle = True
+                    shadow.remove(k)
                 if o != ("1" if ch else "0"):
                     res.bad.append("erase %d at t=%d returned %s, membership says %d" % (k, t, o, ch))
                 touched.setdefault(k, []).append("e" if ch else "e0")
@@ -797,6 +1119,7 @@ def _mon_tsd(case, out):
                         last_removed_value[k] = v
                     grave[k] = v
                     touched.setdefault(k, []).append("e")
+                    shadow.remove(k)
                 if D:
                     removed_this_cycle = True
                 D = {}
@@ -822,6 +1145,8 @@ def _mon_tsd(case, out):
                 mi, ri = _items(f["mi"]), _items(f["ri"])
                 kv, ka, kr, klmt = set(_ints(f["kv"])), set(_ints(f["ka"])), set(_ints(f["kr"])), int(f["klmt"])
                 vv = _items(f["vv"]); d = _delta_tsd(f["d"])
+                c = set(_ints(f["c"]))
+                n_iter = len(_parse_list(f["v"])) + len(_parse_list(f["inv"]))
                 lmt, mod, n = int(f["lmt"]), f["mod"] == "1", int(f["n"])
             except Exception as e:      # noqa
                 if o.startswith("err:"):
@@ -832,8 +1157,15 @@ def _mon_tsd(case, out):
             if t < cur_t:
                 continue
             pub = {k: x for k, x in D.items() if x is not None}
+            late = []
+            if n != n_iter or n_iter != len(v) + len(inv):
+                late.append("tsd-size: size() disagrees with the items that can be iterated: t=%d size()=%d, iterated keys %s"
+                            % (t, n, sorted(list(v) + list(inv))))
+            if c != set(v) | inv:
+                late.append("tsd-contains: contains() disagrees with the iterated keys: t=%d keys %s, of the keys named by items / "
+                            "added / removed those passing contains() are %s" % (t, sorted(set(v) | inv), sorted(c)))
             if v != pub or inv != set(k for k, x in D.items() if x is None) or n != len(D) or set(vv) != set(D) or kv != set(D):
-                res.bad.append("tsd t=%d: items %s invalid-keys %s size %d key-set %s but history says %s" % (t, v, sorted(inv), n, sorted(kv), D))
+                late.append("tsd t=%d: items %s invalid-keys %s size %d key-set %s but history says %s" % (t, v, sorted(inv), n, sorted(kv), D))
             if t == cur_t and cur_t != 0:
                 if mod != (marked_t == t) or lmt != marked_t:
                     res.bad.append("tsd t=%d: last ticking mutation at %d but modified=%d lmt=%d" % (t, marked_t, mod, lmt))
@@ -881,6 +1213,7 @@ def _mon_tsd(case, out):
                 if mod or a or r or m or d is not None:
                     res.bad.append("tsd t=%d: nothing happened at this time but modified=%d added=%s removed=%s modified_keys=%s delta=%s"
                                    % (t, mod, sorted(a), sorted(r), sorted(m), f["d"]))
+            res.bad.extend(late)
             continue
         if o != "bad-op":
             res.bad.append("unknown op %r answered %r" % (ln, o))
@@ -1248,7 +1581,7 @@ def _mon_tw(case, out):
 
 def _run(stream, case, out):
     try:
-        if stream == "tss":
+        if stream.startswith("tss"):
             return _mon_tss(case, out)
         if stream == "tsl":
             return _mon_tsl(case, out)
@@ -1273,7 +1606,7 @@ def monitor(stream, case, out):
 def features(stream, case, out):
     res = _run(stream, case, out)
     fs = set(stream + ":" + f for f in res.feats)
-    for k in ("profile", "mode"):
+    for k in ("profile", "mode", "scenario"):
         if k in case.meta:
             fs.add("%s:%s=%s" % (stream, k, case.meta[k]))
     return sorted(fs)
@@ -1317,7 +1650,17 @@ LEVEL_TEXT = ("Kernel-checked theorems over ALL mutation histories of the modell
               "element that left, delta = pushed value (`window_tick_delta`); all_valid / size / first_modified_time through "
               "the spec list; size <= capacity and head inside the buffer after ANY history. The model is tied to the code by running real TSOutput objects on generated "
               "histories and comparing every observation; an independent trace monitor decides the relations on the "
-              "implementation's dumps.")
+              "implementation's dumps. Growth of the slot table (Props/C05Grow.lean): the two planes (constructed, live) of the "
+              "bitmap representation used for narrow key types are modelled with their word-wise copy; growth preserves the "
+              "state of every slot for EVERY well-formed state (`planes_growth_preserves_states`) and implements the growth step "
+              "of the one-state-per-slot model (`planes_growth_refines`), as do the other lifecycle primitives; for EVERY history "
+              "of operations and reserve calls — growth at any point of any cycle, also with removals pending erase — "
+              "value(t) = value(t-1) - removed + added with all coherence relations, size() = iterated elements and "
+              "contains() <-> iterated (`tssg_tick_coherent`, `tsdg_tick_coherent` incl. the TSD value level); "
+              "`tss_s83_incoherent` / `planes_growth_s83_resurrects` are kernel-checked counter-witnesses for the rule "
+              "'live plane := constructed plane' (seed s83). Streams `tss-boundary` / `tsd-boundary` drive both "
+              "representations to constructed keys = capacity (8 / 16 / 32, reserved capacities incl. the 64-bit word "
+              "boundaries of the planes) and remove + insert in one cycle.")
 LEVEL_NOTE = ("Full at TSD value level for the code with the repair of finding F-C05-1 (fixes/c05_f1.patch, "
               "`restore_modified_mark`): `tsd_value_delta_coherent` proves value' = previous value with the tick's removed keys "
               "and modified items applied for every history with non-decreasing times; `tsd_value_delta_incoherent_prefix` is "
@@ -1326,7 +1669,8 @@ LEVEL_NOTE = ("Full at TSD value level for the code with the repair of finding F
               "if it returns. Known finding F-C05-2 (not repaired): the key_set() projection of a TSD is not coherent when a "
               "key is created by at() without a value (`tsd_keyset_incoherent`; monitor message `tsd-keyset:` on the stream "
               "`tsd-defects`). Trusted: Lean kernel; axioms propext/Classical.choice/Quot.sound; the hand-written model (hash "
-              "index as first constructed slot, bitsets per slot); the correspondence harness. Element types other than Int, "
+              "index as first constructed slot, bitsets per slot, bitmap words as bit lists); the correspondence harness. Key types "
+              "other than int64 / int32 / date / float, value types other than Int, "
               "nested TSD/TSS/TSB values, dynamic TSL and child invalidation are not exercised; duration windows are exercised "
               "through push / clear only (streams `twindow*`, driver hgv_twindow, model Drivers/C05W.lean), not through "
               "whole-list assignment or copies of the storage.")
